@@ -1021,7 +1021,7 @@ func (c *clipperBase) processHorzJoins() {
 
 func (c *clipperBase) reset() {
 	if !c.isSortedMinimaList {
-		sort.Slice(c.minimaList, func(i, j int) bool {
+		sort.SliceStable(c.minimaList, func(i, j int) bool {
 			return c.minimaList[i].Vertex.pt.Y > c.minimaList[j].Vertex.pt.Y
 		})
 		c.isSortedMinimaList = true
